@@ -248,6 +248,37 @@ func c20Apply(root any, m c20Mut, idx int, dir string, r *c20Render) any {
 			return c20Set(root, n.path, ref(name+"#/components/schemas/X"), false)
 		}
 		return c20Set(root, n.path, ref(name), false)
+	case "ref_absent_subfield":
+		// Item has neither of these keywords
+		return c20Set(root, n.path, ref("#/components/schemas/Item/"+[]string{"not", "items", "additionalProperties"}[m.Node%3]), false)
+	case "ref_through_unresolved_ref":
+		sub := []string{"additionalProperties", "items", "properties/p", "not", "allOf/0"}[m.Node%5]
+		root = c20Set(root, n.path, ref("#/components/schemas/Aaa0"), false)
+		if rm, ok := root.(map[string]any); ok {
+			if comps, ok := rm["components"].(map[string]any); ok {
+				if sch, ok := comps["schemas"].(map[string]any); ok {
+					// resolved in name order: Aaa0 is reached while Bbb0 is still an unresolved reference
+					sch["Aaa0"] = ref("#/components/schemas/Bbb0/" + sub)
+					sch["Bbb0"] = ref("#/components/schemas/Ccc0")
+					sch["Ccc0"] = map[string]any{"type": "object", "additionalProperties": map[string]any{"type": "string"},
+						"items": map[string]any{"type": "string"}, "properties": map[string]any{"p": map[string]any{"type": "string"}},
+						"not": map[string]any{"type": "integer"}, "allOf": []any{map[string]any{"type": "object"}}}
+				}
+			}
+		}
+		return root
+	case "ref_callback_self":
+		root = c20Set(root, n.path, ref("#/components/callbacks/SelfCb"), false)
+		if rm, ok := root.(map[string]any); ok {
+			if comps, ok := rm["components"].(map[string]any); ok {
+				if cbs, ok := comps["callbacks"].(map[string]any); ok {
+					cbs["SelfCb"] = map[string]any{"{$request.body#/u}": map[string]any{"post": map[string]any{
+						"responses": map[string]any{"200": map[string]any{"description": "d"}},
+						"callbacks": map[string]any{"again": ref("#/components/callbacks/SelfCb")}}}}
+				}
+			}
+		}
+		return root
 	case "ref_cycle_two":
 		root = c20Set(root, n.path, ref("#/components/schemas/CycA"), false)
 		if rm, ok := root.(map[string]any); ok {
